@@ -621,7 +621,7 @@ def _r7_scheduler(model: Model, run: Run) -> None:
             srcs = [x for x in cfg.nodes_of(st)]
             ok, path = True, []
             for s_ in srcs:
-                ok, path = _feasible_escape(cfg, s_.id, targets)
+                ok, path = _feasible_escape(cfg, s_.id, targets, lambda t, f=f: _predicate_body(model, f, t))
                 if not ok:
                     break
             inst = '%s: entry popped at line %d' % (short(f.qualname), st.lineno)
@@ -640,7 +640,32 @@ def _r7_scheduler(model: Model, run: Run) -> None:
         run.cannot('only %d popleft() sites found in ASYNC' % n)
 
 
-def _feasible_escape(cfg: CFG, src: int, targets: set[int]) -> tuple[bool, list[int]]:
+def _predicate_body(model: Model, fi: FuncInfo, t: ast.AST) -> ast.AST:
+    """`self._is_x(v)` where the helper is `return <expr over its parameter>`: that expression, on v."""
+    import copy
+
+    if not isinstance(t, ast.Call):
+        return t
+    cs = [c for c in model.callees(fi.module, t, by_name=False) if c in model.funcs]
+    if len(cs) != 1:
+        return t
+    h = model.funcs[cs[0]]
+    body = [x for x in h.node.body if not (isinstance(x, ast.Expr) and isinstance(x.value, ast.Constant))]
+    if len(body) != 1 or not isinstance(body[0], ast.Return) or body[0].value is None:
+        return t
+    params = [a.arg for a in h.node.args.args if a.arg not in ('self', 'cls')]
+    if len(params) != len(t.args):
+        return t
+    mapping = dict(zip(params, t.args))
+
+    class Sub(ast.NodeTransformer):
+        def visit_Name(self, n: ast.Name) -> ast.AST:  # noqa: N802
+            return copy.deepcopy(mapping[n.id]) if n.id in mapping else n
+
+    return Sub().visit(copy.deepcopy(body[0].value))
+
+
+def _feasible_escape(cfg: CFG, src: int, targets: set[int], expand=None) -> tuple[bool, list[int]]:  # noqa: ANN001
     """(True, []) when every FEASIBLE path from src to the exit passes a target.  Paths carry the truth values of the `if`
     tests they took: one that took `A or B` as true and later both A and B as false (or any test both ways without an
     assignment in between to a name it reads) is not a path of the program."""
@@ -685,7 +710,8 @@ def _feasible_escape(cfg: CFG, src: int, targets: set[int]) -> tuple[bool, list[
             nf = facts
             if node.kind == 'test' and isinstance(node.ast, ast.If) and lab in ('true', 'false'):
                 add = set()
-                for t, pol in conjuncts(node.ast.test, lab == 'true'):
+                test = expand(node.ast.test) if expand is not None else node.ast.test
+                for t, pol in conjuncts(test, lab == 'true'):
                     if isinstance(t, ast.BoolOp) and isinstance(t.op, ast.Or) and pol:
                         add.add((norm(t), True, tuple(norm(v) for v in t.values)))
                     else:
